@@ -15,7 +15,8 @@
 (***************************************************************************)
 EXTENDS Integers, Sequences, FiniteSets, TLC
 
-CONSTANTS Cases,     \* sequence of cases (supplied by Gen_*/MC_* modules)
+CONSTANTS Params,    \* set of case parameters (supplied by Gen_*/MC_* modules)
+          MkCase(_), \* builds the case (template set + Execute calls) for a parameter
           Names,     \* variable names
           FixTry,    \* try restores scope/context/content on failure (repaired design)
           FixPool,   \* Execute starts with no content closure (repaired design)
@@ -44,16 +45,16 @@ Par(n, e) == [n |-> n, e |-> e]
 Truthy(v) == v \notin {Nil, "false", "", "0", Unset}
 
 ---------------------------------------------------------------------------
-VARIABLES ci,        \* case index
+VARIABLES cs,        \* the case under execution (constant along a behaviour)
           run,       \* index of the Execute call in progress
           frames, heap, cur, ctx, contents, content, bufs, writer, out,
           rv,        \* return value of the list that just ended ("" = invalid)
           err,       \* pending / final error of this execution
           mode,      \* "start" | "run" | "unwind" | "ended" | "done"
           results    \* per-run observations
-vars == <<ci, run, frames, heap, cur, ctx, contents, content, bufs, writer, out, rv, err, mode, results>>
+vars == <<cs, run, frames, heap, cur, ctx, contents, content, bufs, writer, out, rv, err, mode, results>>
 
-Case   == Cases[ci]
+Case   == cs
 Runs   == Case.runs
 RunRec == Runs[run]
 NoErr  == [on |-> FALSE, class |-> "", id |-> ""]
@@ -157,7 +158,8 @@ Raise(class, id) == /\ err' = [on |-> TRUE, class |-> class, id |-> id]
                     /\ mode' = "unwind"
 
 ---------------------------------------------------------------------------
-Init == /\ ci \in 1..Len(Cases) /\ run = 1 /\ mode = "start"
+Init == /\ \E par \in Params : cs = MkCase(par)
+        /\ run = 1 /\ mode = "start"
         /\ frames = <<>> /\ heap = <<>> /\ cur = 0 /\ ctx = Nil /\ contents = <<>> /\ content = 0
         /\ bufs = <<>> /\ writer = 0 /\ out = <<>> /\ rv = "" /\ err = NoErr /\ results = <<>>
 
@@ -175,7 +177,7 @@ ExecStart ==
         frames' = << [Fr("top", <<>>, St("none", "")) EXCEPT !.gsc = 1, !.gwr = 0, !.gcx = c0, !.gct = k0],
                      [Fr("list", TmplNamed(RootOf(r.entry)).body, St("none", "")) EXCEPT !.gsc = 1, !.gwr = 0, !.gcx = c0, !.gct = k0] >>
      /\ mode' = "run"
-  /\ UNCHANGED <<ci, run, results>>
+  /\ UNCHANGED <<cs, run, results>>
 
 \* Runtime.recover: reset scope and context (and, repaired, content), return to the pool
 ExecEnd ==
@@ -184,13 +186,13 @@ ExecEnd ==
   /\ ctx' = Nil /\ heap' = heap /\ cur' = 0
   /\ content' = IF FixPool THEN 0 ELSE content
   /\ IF run < Len(Runs) THEN run' = run + 1 /\ mode' = "start" ELSE run' = run /\ mode' = "done"
-  /\ UNCHANGED <<ci, frames, contents, bufs, writer, out, rv, err>>
+  /\ UNCHANGED <<cs, frames, contents, bufs, writer, out, rv, err>>
 
 ---------------------------------------------------------------------------
 (* Statement execution. Each disjunct is one critical section.             *)
 
 Keep(S) == UNCHANGED S
-Ctl == <<ci, run, results>>
+Ctl == <<cs, run, results>>
 
 AdvancePC == [frames EXCEPT ![Top].pc = @ + 1]
 
